@@ -193,9 +193,10 @@ def run(R, tier):
     probes = sorted(x for x in probes if -32768 <= x <= 32767)
     seen = {}
     undecided = []
+    eng_ge = fdai.Engine(P, u, inline=lambda n, r: False, models=dict(M.FOLD_MODELS), loop_limit=400, max_paths=8)
     for v in probes:
         try:
-            res = eng.run(ge, [fdai.K(v)])
+            res = eng_ge.run(ge, [fdai.K(v)])
         except (fdai.TooManyPaths, RecursionError):
             res = []
         r = res[0].retval if len(res) == 1 and res[0].outcome == "return" else None
@@ -219,7 +220,7 @@ def run(R, tier):
     for unit_name in ("scpi", "scpi_contrib"):
         uu = P.unit(unit_name)
         for body in uu.bodies:
-            if body.npath.endswith(("ErrorCode::get_error", "ErrorCode::get_code", "ErrorCode::get_message")) or "core::fmt::Debug" in (body.impl_trait or "") or "core::clone::Clone" in (body.impl_trait or "") or "core::cmp::PartialEq" in (body.impl_trait or ""):
+            if body.npath.endswith(("ErrorCode::get_error", "ErrorCode::get_code", "ErrorCode::get_message")) or any(t in body.npath for t in ("ErrorCode::get_error::", "ErrorCode::get_code::", "ErrorCode::get_message::")) or "core::fmt::Debug" in (body.impl_trait or "") or "core::clone::Clone" in (body.impl_trait or "") or "core::cmp::PartialEq" in (body.impl_trait or ""):
                 continue
             for mir in body.all_mirs():
                 for bi in mir.live_blocks():
